@@ -327,8 +327,14 @@ Definition enc_get (enc : dict Z) (i : Z) : Z := match dget i enc with Some m =>
 
 Definition nkids (t : tree) : Z := Z.of_nat (length (t_kids t)).
 
+(* if to_del_edge.length is not None:
+     if to_keep.edge.length is None: to_keep.edge.length = to_del_edge.length
+     else: to_keep.edge.length += to_del_edge.length *)
 Definition add_len (keep del : option Z) : option Z :=
-  match keep, del with Some a, Some b => Some (a + b) | _, _ => keep end.
+  match del with
+  | None => keep
+  | Some b => match keep with None => Some b | Some a => Some (a + b) end
+  end.
 
 Definition set_len (t : tree) (l : option Z) : tree :=
   match t with T i x lb _ ks => T i x lb l ks end.
@@ -402,19 +408,22 @@ Fixpoint stepdown (t : tree) : tree :=
 (* the root-to-tip loop.  visit t last = what happens when curr_node = t:
      None     -> cm & leafset_bitmask = 0: curr_node = next(nd_source)
      Some r   -> the loop returns node r *)
-Fixpoint visit (enc : dict Z) (sm : Z) (t : tree) (last : tree) : option tree :=
+(* ee: the working tree has the early exit `if cm == leafset_bitmask: <step down unifurcations>;
+   return curr_node` (observed by the harness; a repaired library may drop it, see
+   tree_mrca_taxonless_leaf_refuted) *)
+Fixpoint visit (ee : bool) (enc : dict Z) (sm : Z) (t : tree) (last : tree) : option tree :=
   let cm := enc_get enc (t_id t) in
   let cms := Z.land cm sm in
   if Z.eqb cms 0 then None
   else if Z.eqb cms sm then
-    if Z.eqb cm sm then Some (stepdown t)
+    if Z.eqb cm sm && ee then Some (stepdown t)
     else
       match t with
       | T _ _ _ _ ks =>
         Some ((fix scan (ks : list tree) : tree :=
                  match ks with
                  | [] => t            (* StopIteration: return last_match (= t) *)
-                 | k :: r => match visit enc sm k t with Some res => res | None => scan r end
+                 | k :: r => match visit ee enc sm k t with Some res => res | None => scan r end
                  end) ks)
       end
   else Some last.
@@ -431,7 +440,7 @@ Definition mrca_mask (ns : nspace) (arg : mrca_arg) : res Z :=
 
 (* Tree.mrca(<arg>, start_node=start, is_bipartitions_updated=updated)
    returns the node found (None = Python None) and the tree afterwards *)
-Definition tree_mrca (ns : nspace) (mt : mtree) (arg : mrca_arg) (start : option Z) (updated : bool)
+Definition tree_mrca (ee : bool) (ns : nspace) (mt : mtree) (arg : mrca_arg) (start : option Z) (updated : bool)
   : res (option Z) * mtree :=
   let start_id := match start with Some i => i | None => t_id (mt_tree mt) end in
   match mrca_mask ns arg with
@@ -456,7 +465,7 @@ Definition tree_mrca (ns : nspace) (mt : mtree) (arg : mrca_arg) (start : option
         | Some s =>
           if negb (Z.eqb (Z.land (enc_get (mt_enc mt') start_id) sm) sm) then (Ok None, mt')
           else
-            match visit (mt_enc mt') sm s s with
+            match visit ee (mt_enc mt') sm s s with
             | Some r => (Ok (Some (t_id r)), mt')
             | None => (Ok (Some (t_id s)), mt')   (* first next(nd_source): children of start; see below *)
             end
@@ -488,8 +497,8 @@ Fixpoint climb (up : list tree) (target : option Z) (acc : Z) : res Z :=
     else climb r target (acc + len0 n)
   end.
 
-Definition tm_patristic (ns : nspace) (mt : mtree) (a b : Z) (updated : bool) : res Z * mtree :=
-  match tree_mrca ns mt (ByTaxa [a; b]) None updated with
+Definition tm_patristic (ee : bool) (ns : nspace) (mt : mtree) (a b : Z) (updated : bool) : res Z * mtree :=
+  match tree_mrca ee ns mt (ByTaxa [a; b]) None updated with
   | (Ok m, mt') =>
     let up x := match path_to x (mt_tree mt') with Some p => rev p | None => [] end in
     (do d1 <- climb (up a) m 0 ;; climb (up b) m d1, mt')
@@ -759,17 +768,17 @@ Definition enc_of (mt : mtree) : list (Z * Z) :=
 
 Definition zz_eqb (a b : Z * Z) : bool := Z.eqb (fst a) (fst b) && Z.eqb (snd a) (snd b).
 
-Definition mstep (ns : nspace) (mt : mtree) (q : mquery) : mres * mtree :=
+Definition mstep (ee : bool) (ns : nspace) (mt : mtree) (q : mquery) : mres * mtree :=
   match q with
-  | QMrca arg start updated => let (r, mt') := tree_mrca ns mt arg start updated in (MRnode r, mt')
-  | QTm a b updated => let (r, mt') := tm_patristic ns mt a b updated in (MRdist r, mt')
+  | QMrca arg start updated => let (r, mt') := tree_mrca ee ns mt arg start updated in (MRnode r, mt')
+  | QTm a b updated => let (r, mt') := tm_patristic ee ns mt a b updated in (MRdist r, mt')
   end.
 
-Fixpoint mrun_ok (ns : nspace) (mt : mtree) (qs : list (mquery * mobs)) : bool :=
+Fixpoint mrun_ok (ee : bool) (ns : nspace) (mt : mtree) (qs : list (mquery * mobs)) : bool :=
   match qs with
   | [] => true
   | (q, o) :: rest =>
-    let (r, mt') := mstep ns mt q in
+    let (r, mt') := mstep ee ns mt q in
     mres_eqb r (mo_res o)
     && match mo_tree o with
        | Some (t', rt') => tree_eqb (mt_tree mt') t' && ob_eqb (mt_rooted mt') rt'
@@ -779,7 +788,7 @@ Fixpoint mrun_ok (ns : nspace) (mt : mtree) (qs : list (mquery * mobs)) : bool :
        | Some e => list_eqb zz_eqb (enc_of mt') e
        | None => list_eqb zz_eqb (enc_of mt') (enc_of mt)
        end
-    && mrun_ok ns mt' rest
+    && mrun_ok ee ns mt' rest
   end.
 
 Inductive msrc :=
@@ -815,7 +824,7 @@ Fixpoint qtree_close (eps : Q) (m o : qtree) : bool :=
 
 Inductive case :=
 | CPdm (t : tree) (exp : res pdm_obs)
-| CMrca (ns : nspace) (t : tree) (rooted : option bool) (enc : dict Z) (qs : list (mquery * mobs))
+| CMrca (ee : bool) (ns : nspace) (t : tree) (rooted : option bool) (enc : dict Z) (qs : list (mquery * mobs))
 | CClu (src : msrc) (order : list Z) (nj : bool) (exp : res qtree).
 
 Definition case_ok (c : case) : bool :=
@@ -826,7 +835,7 @@ Definition case_ok (c : case) : bool :=
     | Err e, Err f => err_eqb e f
     | _, _ => false
     end
-  | CMrca ns t rooted enc qs => mrun_ok ns (mkMt t rooted enc) qs
+  | CMrca ee ns t rooted enc qs => mrun_ok ee ns (mkMt t rooted enc) qs
   | CClu src order nj exp =>
     let r := do M <- src_table src ;; if nj then nj_tree M order else upgma_tree M order in
     match r, exp with
@@ -844,9 +853,9 @@ Definition case_show (c : case) :=
      | Ok p => Ok (p_tree_length p, p_num_edges p, p_dist p, p_steps p, p_mrca p, p_mapped p, p_pairs p)
      | Err e => Err e | OutOfFuel => OutOfFuel end,
      @nil (mres * option bool), @Err qtree OtherErr)
-  | CMrca ns t rooted enc qs =>
+  | CMrca ee ns t rooted enc qs =>
     (@Err (Z * Z * tbl Z * tbl Z * tbl Z * list Z * list (Z * Z)) OtherErr,
-     snd (fold_left (fun acc qo => let (r, mt') := mstep ns (fst acc) (fst qo) in (mt', snd acc ++ [(r, mt_rooted mt')]))
+     snd (fold_left (fun acc qo => let (r, mt') := mstep ee ns (fst acc) (fst qo) in (mt', snd acc ++ [(r, mt_rooted mt')]))
                     qs (mkMt t rooted enc, [])),
      @Err qtree OtherErr)
   | CClu src order nj _ =>
